@@ -1,1 +1,35 @@
-(* C05 SpecTest — placeholder, filled below *)
+(* C05 — executable sanity tests of the model and of the residual checker
+   (tests, not proofs: they guard the statements against typos). *)
+From Coq Require Import String List ZArith Bool Floats.
+From ADV Require Import Base.Num Base.Corr C05.Model C05.Corr C05.Resid.
+Import ListNotations.
+Open Scope float_scope.
+
+Definition a4 : fmat := [[18;22;54;42];[22;70;86;62];[54;86;174;134];[42;62;134;106]].
+(* integer Cholesky factor: A = G G^T with G = [[2,0],[1,3]] *)
+Example chol_exact : cholesky NumXF [[4;2];[2;10]] = Some [[2;0];[1;3]].
+Proof. vm_compute. reflexivity. Qed.
+Example chol_fast_eq : ofm_eqb (cholesky_fast NumXF a4) (cholesky NumXF a4) = true.
+Proof. vm_compute. reflexivity. Qed.
+Example chol_err : cholesky NumXF [[1;2];[2;1]] = None.
+Proof. vm_compute. reflexivity. Qed.
+Example ldl_exact : cholesky_ldl NumXF [[4;2];[2;10]] = Some ([[1;0];[0.5;1]], [[4;0];[0;9]]).
+Proof. vm_compute. reflexivity. Qed.
+Example ldl_err : cholesky_ldl NumXF [[0;0];[0;1]] = None.
+Proof. vm_compute. reflexivity. Qed.
+(* forcePD leaves a safely positive definite matrix alone *)
+Example fpd_inactive : option_eqb pair_eqb (cholesky_ldl_forcepd NumXF lit_1e20 lit_1e20 [[4;2];[2;10]])
+                                           (cholesky_ldl NumXF [[4;2];[2;10]]) = true.
+Proof. vm_compute. reflexivity. Qed.
+Example house_345 : house NumXF [3;4] = (0.4, [1; -2]).   (* (I - 0.4 v v^T)(3,4) = (5,0) *)
+Proof. vm_compute. reflexivity. Qed.
+
+Open Scope Z_scope.
+Example resid_accepts : rcheck (RChol [[(4,0);(2,0)];[(2,0);(10,0)]] [[(2,0);(0,0)];[(1,0);(3,0)]]) = true.
+Proof. vm_compute. reflexivity. Qed.
+Example resid_rejects : rcheck (RChol [[(4,0);(2,0)];[(2,0);(10,0)]] [[(2,0);(0,0)];[(1,0);(1,1)]]) = false.
+Proof. vm_compute. reflexivity. Qed.
+Example resid_rejects_upper : rcheck (RChol [[(4,0);(2,0)];[(2,0);(10,0)]] [[(2,0);(1,-60)];[(1,0);(3,0)]]) = false.
+Proof. vm_compute. reflexivity. Qed.
+Example resid_svd_negative : rcheck (RSvd [[(-3,0)]] [[(-3,0)]] (Some [[(1,0)]]) (Some [[(1,0)]])) = false.
+Proof. vm_compute. reflexivity. Qed.
